@@ -156,6 +156,10 @@ class SupervisorProxy:
         except ValueError:
             self.logger.error(f'SupervisorRemoteProxy.publish: unexpected publication={publication_message}')
             return
+        # nothing is sent to an ISOLATED instance
+        # NOTE: the proxy of an ISOLATED instance is only stopped at the next get_proxy, and messages may still be queued
+        if self.status.isolated:
+            return
         # publish the message to the supvisors instance
         # if the remote instance is not active, try to publish only TICK events
         # NOTE: the real instance state is used instead of the self.connected flag
@@ -169,6 +173,9 @@ class SupervisorProxy:
             request_type = RequestHeaders(request_message[0])
         except ValueError:
             self.logger.error(f'SupervisorProxy.execute: unexpected request={request_message[0]}')
+            return
+        # nothing is sent to an ISOLATED instance (same note as publish)
+        if self.status.isolated:
             return
         # send message
         if request_type == RequestHeaders.CHECK_INSTANCE:
